@@ -5,6 +5,7 @@ hypergraphx.readwrite.* and independent property oracles on the implementation."
 import copy
 import json
 import random
+import re
 import struct
 import zlib
 from fractions import Fraction
@@ -47,12 +48,32 @@ RULE = ("random objects of the four container classes built by histories of add_
         "fresh equal object, node sets travel as tuple / list / set / frozenset / dict / dict view / generator / iterator, "
         "part of the histories goes through add_edges batches and through the constructor (edge_list, weights, "
         "hypergraph / node / edge metadata); collections handed in are overwritten after the call. "
+        "STRING CONTENT is a dimension: a pool of about 165 strings (lone and reversed surrogates such as os.fsdecode gives for "
+        "undecodable file names, NUL / C0 / C1 control characters, CR / LF / TAB, every separator of str.splitlines incl. "
+        "U+2028 / U+2029 / U+0085, BOM and non-characters, composed vs decomposed accents, case / compatibility twins "
+        "(K, k, KELVIN SIGN; ss, SS, sharp s), white space that str.strip removes, zero-width and bidi marks, astral characters, "
+        "UTF-8 length boundaries, strings that look like numbers / JSON values / escapes / the format's own field names, numerals of "
+        "hundreds of digits) plus a dozen long ones (70001 ASCII, thousands of non-ASCII / astral / surrogate / NUL / quote / "
+        "backslash characters, 65535 characters + a lone surrogate); every run saves and loads, for each of the four types, a "
+        "CENSUS object in which every string of the pool is a node label, a member of a hyperedge, a metadata key and a "
+        "metadata value (plain, nested in lists, key and value of nested dicts) of a node, a hyperedge and the hypergraph, with "
+        "layer names from the pool (one of the four also with the long strings), objects with random odd labels / layer names / "
+        "keys / values (12 % of the stream) and - in a CHILD PROCESS whose locale encoding is ASCII (LC_ALL=C, UTF-8 mode "
+        "off) - a dozen more objects, whose files also cross between the two processes (saved under one locale, loaded under "
+        "the other, both directions, both formats); files are saved under names with several dots, blanks, non-ASCII / astral / "
+        "undecodable characters and inside a directory whose name holds a dot; .hgr comment and blank lines hold non-ASCII, "
+        "astral, NUL and splitlines-separator characters followed by what would be a hyperedge line, CRLF files; HIF names and "
+        "attribute keys / values come from the same pool and HIF documents are written as ASCII escapes or as raw UTF-8. "
         "A case is distinct by (kind, type, digest or file text or recipe); "
         "non-trivial: an object with >= 1 isolated node, >= 2 hyperedges and non-empty metadata somewhere; a .hgr file "
         "with a comment or blank line and >= 2 hyperedges; a HIF document with a shared incidence set or an edge "
         "without incidences")
 ASSUMPTIONS = ["node labels, layer names and metadata are JSON-representable (str keys; str/int/float/bool/None/list/dict "
-               "values, finite floats, no lone surrogates); labels of one object are all int or all str",
+               "values, finite floats); strings are arbitrary Python str INCLUDING lone surrogates, except a high surrogate "
+               "immediately followed by a low one (json.loads reads the two escapes as one astral character: that str has no JSON "
+               "text of its own); labels of one object are all int or all str",
+               "the round trip does not depend on the process's locale encoding nor on the process that wrote the file "
+               "(the unchanged writer emits ASCII text / pickles): checked under UTF-8 and under LC_ALL=C (ASCII)",
                "'the same weights / metadata' is read as: equal value AND equal numeric type (int stays int, float stays "
                "float, bool stays bool, -0.0 stays -0.0) - JSON text and pickle both keep them apart and the hash of "
                "C07 distinguishes them; integers are compared exactly (no float rounding). For UNWEIGHTED objects only "
@@ -82,7 +103,10 @@ ASSUMPTIONS = ["node labels, layer names and metadata are JSON-representable (st
                "model; weights reach the model as exact integers 4*w (any magnitude); float weights that are no "
                "multiple of 1/4 as injective opaque codes (the model stores and compares weights on the save/load "
                "path; histories in which such weights add up are compared with the twin object only)"]
-TRUSTED = ["json.dump/json.load and pickle.dump/pickle.load are faithful on JSON-representable values (tuples come back as lists)",
+TRUSTED = ["json.dump/json.load and pickle.dump/pickle.load are faithful on JSON-representable values (tuples come back as lists); "
+           "of json's text layer the STRING LITERALS are modelled (lean/Hgxv/Model/C06Str.lean: C06_str_roundtrip, C06_str_ascii) "
+           "and compared with json.dumps / json.loads and with the bytes of the saved files; numbers, nesting and the C "
+           "accelerators stay trusted",
            "str.strip / str.split / int of the .hgr tokeniser (the harness tokenises the same text for the model)",
            "json.JSONDecoder.raw_decode as the scanner of ONE top-level value when the saved text is cut into pieces "
            "([ , value ]) for the model's framing grammar",
@@ -146,6 +170,28 @@ INT_LABELS = list(range(0, 30)) + [-1, -7, 2 ** 53 + 1, 2 ** 53, 2 ** 63, 2 ** 6
 STR_LAYERS = ["L0", "L1", "social", "z", "", "0", "1", "\u00e9 \u00fc", "l\"q\\", "\U0001f600"]
 INT_LAYERS = [0, 1, 2, 3, 4, -1, 2 ** 53 + 1, 2 ** 64, 256, 257, 2 ** 31, 2 ** 32]
 TIMES = [0, 1, 2, 5, 40, 0, 1, 2, 2 ** 53 + 1, 2 ** 63, 10 ** 20, 0, 1, 2, 255, 256, 257, 65535, 65536, 2 ** 31, 2 ** 32 + 1]
+# STRING CONTENT as a dimension (labels, layer names, metadata keys and values, HIF names): every str that JSON text and
+# pickle represent.  (A high surrogate immediately followed by a low one is left out: json.loads reads the two escapes as
+# ONE astral character, so that str has no JSON text of its own.)
+ODD_SURR = ["\ud800", "\udfff", "\udbff", "\udc00", "caf\udce9.txt", "\udc00\ud800", "a\ud83d", "\ude00b", "\ud83dx\ude00",
+            "\ud800\ud800", "\U0001f600\ud83d", "\udc80\x00"]
+ODD_CTRL = ["\x00", "a\x00b", "a\x00", "\x00a", "\x01", "\x08", "\x0b", "\x0c", "\x1b", "\x1c", "\x1d", "\x1e", "\x1f", "\x7f", "\x80", "\x85",
+            "\x9f", "\r", "\r\n", "\n", "\n\n", "\t", "a\nb", "a\rb", "a\tb"]
+ODD_SEP = ["\u2028", "\u2029", "a\u2028b", "a\u2029", "\u2028\u2029", "x\x85y", "x\x1cy"]
+ODD_UNI = ["\u00e9", "e\u0301", "\u00df", "ss", "SS", "\u0130", "i\u0307", "\u212a", "K", "k", "\u00c5", "\u212b", "A\u030a", "\ufb01", "fi",
+           "\u0660", "\uff11", "\u00b2", "\u4e2d\u6587", "\u05e2\u05d1", "\u200b", "\u200d", "\u202e", "\u00a0", "\u3000", "\u2003a", "a\u00a0",
+           "\ufeff", "\ufeffa", "\uffff", "\ufffe", "\ufffd", "\ufdd0", "\u00ff", "\u0100", "\u07ff", "\u0800", "\ud7ff", "\ue000",
+           "\U0001f600", "\U00010000", "\U0010ffff", "\U0001f468\u200d\U0001f469", "a\U0001f600b", "\U0001f600\U0001f600", "\U000e0001"]
+ODD_LOOK = ['{"a":1}', "[1,2]", '"q"', "NaN", "nan", "Infinity", "-Infinity", "inf", "1e999", "0x10", "1_000", " 1", "1 ", "+1", "-0",
+            "1.", ".5", "1e3", "01", "1.0", "null", "true", "false", "None", "True", "False", "{}", "[]", ",", ":", ";", "|", "\\",
+            "\\\\", "\\n", "\\u00e9", "\\ud800", "\\ud83d\\ude00", "'", '"', '\\"', '"}', "/", "\\/", "</script>", "%", "%s", "{0}", "#", "a", "A",
+            " a", "a ", "a\n", "  ", "idx", "type", "node", "edge", "metadata", "interaction", "hypergraph_type", "hypergraph_metadata",
+            "weighted", "weight", "time", "layer", "9" * 400, "1" + "0" * 400, "-" + "7" * 50, "1e-400", "0.1", "1/3"]
+ODD_LONG = ["A" * 70001, "\u00e9" * 5000, "\U0001f600" * 3000, "\ud800" * 1000, "\x00" * 4097, "\u2028" * 300, "\\" * 8193, "\"" * 4096,
+            "9" * 5000, ("\u00e9" * 4095) + "z", ("x" * 8191) + "\U0001f600", ("x" * 65535) + "\ud83d"]
+ODD_STRS = list(dict.fromkeys(ODD_SURR + ODD_CTRL + ODD_SEP + ODD_UNI + ODD_LOOK))
+assert not any(re.search("[\ud800-\udbff][\udc00-\udfff]", x) for x in ODD_STRS + ODD_LONG)
+ODD_KEYS = [x for x in ODD_STRS if x not in ("weight", "time", "layer", "weighted", "type")]
 OPAQUE = 2 ** 1100      # codes of float weights that are no multiples of 1/4 (above 4 * any finite float)
 
 
@@ -155,6 +201,21 @@ class Timeout(Exception):
 
 def _alarm(sig, frm):
     raise Timeout()
+
+
+def plain(text):
+    """printable ASCII text of a message (labels with lone surrogates / control characters appear escaped)"""
+    return "".join(c if " " <= c <= "~" else c.encode("unicode_escape").decode("ascii") for c in str(text))
+
+
+def plain_reports(ctx):
+    """every report of this module goes through plain(): a message can always be printed and stored"""
+    if getattr(ctx, "_c06_plain", False):
+        return
+    v, d = ctx.violation, ctx.disagree
+    ctx.violation = lambda case, what: v(case, plain(what))
+    ctx.disagree = lambda case, what: d(case, plain(what))
+    ctx._c06_plain = True
 
 
 def guarded(f, *a, secs=10, **k):
@@ -168,7 +229,7 @@ def guarded(f, *a, secs=10, **k):
     except BaseException as e:  # noqa: BLE001 - also `raise "text"` (TypeError) and SystemExit of mutants
         if isinstance(e, KeyboardInterrupt):
             raise
-        return ("exc", type(e).__name__ + ": " + str(e)[:200])
+        return ("exc", plain(type(e).__name__ + ": " + str(e)[:200]))
     finally:
         signal.alarm(0)
         signal.signal(signal.SIGALRM, old)
@@ -177,10 +238,33 @@ def guarded(f, *a, secs=10, **k):
 # ------------------------------------------------------------------------------------------
 # generation of objects
 
-def gen_meta(rng, p_empty=0.45, reserved=True):
+def odd_str(rng):
+    """one string of the string-content class (now and then a long one)"""
+    return rng.choice(ODD_LONG) if rng.random() < 0.03 else rng.choice(ODD_STRS)
+
+
+def odd_val(rng, depth=0):
+    """a metadata value made of odd strings: the string itself, or nested in lists / as keys and values of dicts"""
+    r = rng.random()
+    if r < 0.55 or depth >= 2:
+        return odd_str(rng)
+    if r < 0.75:
+        return [odd_val(rng, depth + 1) for _ in range(rng.randint(1, 3))]
+    if r < 0.95:
+        return {rng.choice(ODD_STRS): odd_val(rng, depth + 1) for _ in range(rng.randint(1, 3))}
+    return copy.deepcopy(rng.choice(VALS))
+
+
+def gen_meta(rng, p_empty=0.45, reserved=True, odd=False):
     if rng.random() < p_empty:
         return {}
     m = {}
+    if odd:
+        for _ in range(rng.randint(1, 3)):
+            r = rng.random()
+            k = rng.choice(list(RKEYS)) if reserved and r < 0.1 else rng.choice(UKEYS[2:8]) if r < 0.3 else rng.choice(ODD_KEYS)
+            m[k] = odd_val(rng)
+        return m
     for _ in range(rng.randint(1, 3)):
         r = rng.random()
         if reserved and r < 0.18:
@@ -216,8 +300,18 @@ def gen_weight(rng, reg):
     return rng.choice([1, 3, 1.0, 0.5])
 
 
-def gen_case(rng, T=None):
+def gen_case(rng, T=None, stringy=None):
+    """stringy: the STRING CONTENT of labels, layer names, metadata keys and values is the dimension (ODD_STRS)"""
     T = T or rng.choice(TYPES)
+    if stringy is None:
+        stringy = rng.random() < 0.12
+    if stringy:
+        real_gen_meta = globals()["gen_meta"]
+
+        def gen_meta(rng, p_empty=0.45, reserved=True):
+            return real_gen_meta(rng, p_empty, reserved, odd=True)
+    else:
+        gen_meta = globals()["gen_meta"]
     weighted = rng.random() < 0.5
     wreg = rng.choice(["q", "q", "big", "flt"]) if weighted else None
     n = rng.randint(2, 9)
@@ -230,12 +324,22 @@ def gen_case(rng, T=None):
         pool = INT_LABELS[:30]
     else:
         pool = INT_LABELS
+    if stringy:
+        pool = ODD_STRS if rng.random() < 0.8 else ODD_STRS + ODD_LONG
     both = rng.sample(pool, n + 2)
     labels, xlabels = sorted(both[:n]), both[n:]                # xlabels: nodes that only the later history names
     r = rng.random()
     layers = rng.sample(STR_LAYERS[:4], 3) if r < 0.4 else rng.sample(STR_LAYERS, 3) if r < 0.7 else \
         rng.sample(INT_LAYERS[:5], 3) if r < 0.85 else rng.sample(INT_LAYERS, 3)
+    if stringy:
+        layers = rng.sample(ODD_STRS, 3)
     ops = []
+
+    def akey(extra=()):
+        return rng.choice(ODD_KEYS) if stringy and rng.random() < 0.8 else rng.choice(UKEYS[2:] + list(extra))
+
+    def aval():
+        return odd_val(rng) if stringy and rng.random() < 0.8 else copy.deepcopy(rng.choice(VALS))
 
     def wt():
         if weighted:
@@ -284,15 +388,15 @@ def gen_case(rng, T=None):
             return ("rmnode", rng.choice(labels), rng.random() < 0.3)
         if r < 0.82:
             if rng.random() < 0.35:
-                return ("nattr", rng.choice(labels), rng.choice(UKEYS[2:]), copy.deepcopy(rng.choice(VALS)))
+                return ("nattr", rng.choice(labels), akey(), aval())
             return ("nmeta", rng.choice(labels), gen_meta(rng, 0.2, reserved=False))
         if r < 0.90:
             return ("emeta", rng.choice(keys), gen_meta(rng, 0.2))
         if r < 0.95:
             return ("setw", rng.choice(keys), wt() if weighted else 1)
         if late and rng.random() < 0.3:
-            return ("hattr", rng.choice(UKEYS[2:] + ["weight"]), copy.deepcopy(rng.choice(VALS)))
-        return ("eattr", rng.choice(keys), rng.choice(UKEYS[2:] + list(RKEYS)), copy.deepcopy(rng.choice(VALS)))
+            return ("hattr", akey(["weight"]), aval())
+        return ("eattr", rng.choice(keys), akey(list(RKEYS)), aval())
 
     def gen_bulk(late=False):
         """a batch for add_edges / the constructor: 1-4 hyperedges with distinct keys (some may exist already), weights
@@ -327,7 +431,7 @@ def gen_case(rng, T=None):
     elif r < 0.45:
         ops.append(("hset", {"weighted": not weighted, "type": "x", "a": [1, 2]}))   # stale flag
     elif r < 0.65:
-        ops.append(("hattr", rng.choice(UKEYS[2:] + ["weight"]), copy.deepcopy(rng.choice(VALS))))
+        ops.append(("hattr", akey(["weight"]), aval()))
     if not weighted and T != "M" and rng.random() < 0.12:
         ks = []
         for _ in range(rng.randint(1, 3)):
@@ -340,6 +444,8 @@ def gen_case(rng, T=None):
         ops.append(("node", rng.choice(labels), gen_meta(rng, 0.3, reserved=False)))
     case = {"T": T, "weighted": weighted, "wreg": wreg, "labels": labels, "xlabels": xlabels, "layers": list(layers),
             "ops": ops}
+    if stringy:
+        case["stringy"] = True
     if ctor:
         case["ctor"] = ctor
     if rng.random() < 0.3:
@@ -394,6 +500,8 @@ def expand(recipe):
     rng = random.Random(recipe["seed"])
     T, S, dim, weighted = recipe["T"], recipe["size"], recipe["dim"], recipe["weighted"]
     wreg = recipe.get("wreg") or "q"
+    if dim == "strings":
+        return expand_strings(recipe, rng)
     kind = recipe.get("labels", "int")
     N, E = 6, 5
     if dim == "records":
@@ -584,6 +692,56 @@ def expand(recipe):
     return case
 
 
+def expand_strings(recipe, rng):
+    """the string census: ONE object of type T in which every string of ODD_STRS (size 1: also ODD_LONG) is a node label,
+    a member of a hyperedge, a metadata key and a metadata value (plain, in a list, as key and value of a nested dict) of
+    its node, of a hyperedge and of the hypergraph; layer names cycle through the strings"""
+    T, weighted = recipe["T"], recipe["weighted"]
+    wreg = recipe.get("wreg") or "q"
+    strs = ODD_STRS + (ODD_LONG if recipe["size"] else [])
+    labels = strs[:]
+    rng.shuffle(labels)
+    layers = rng.sample(ODD_STRS, 6) if T == "M" else ["L0", "L1", "L2"]
+    ops = []
+    keyable = [x for x in labels if x in ODD_KEYS or x in ODD_LONG]
+    for x in labels:
+        k = x if x in keyable else "k"
+        ops.append(("node", x, {k: x, "v": [x, {k: [x, None]}]} if rng.random() < 0.85 else {}))
+    ekeys = []
+    n = len(labels)
+    for i in range(n):
+        mem = tuple(dict.fromkeys([labels[i], labels[(i + 1) % n], labels[(i * 7 + 3) % n]]))[:rng.randint(1, 3)]
+        if T == "D":
+            mem = mem if len(mem) > 1 else (labels[i], labels[(i + 2) % n])
+            key = ((mem[:1], mem[1:]),)
+        elif T == "H":
+            key = (mem,)
+        elif T == "T":
+            key = (mem, rng.choice([0, 1, 5, 2 ** 53 + 1]))
+        else:
+            key = (mem, layers[i % len(layers)])
+        kk = keyable[i % len(keyable)]
+        md = {kk: labels[(i + 5) % n], "n": {kk: [labels[i]]}} if rng.random() < 0.8 else {}
+        ops.append(("edge", key, gen_weight(rng, wreg) if weighted else None, md))
+        ekeys.append(key)
+    # twins under normalisation / case folding / stripping are keys of ONE dict: hypergraph, one node, one hyperedge
+    ops.append(("hattr", "census", {x: x for x in keyable}))
+    ops.append(("nmeta", labels[n // 2], {x: [x] for x in keyable if len(x) < 100}))
+    if T == "M":
+        ops.append(("eattr", ekeys[n // 3], "all", {x: x for x in keyable if len(x) < 100}))
+    else:
+        ops.append(("emeta", ekeys[n // 3], {x: x for x in keyable if len(x) < 100}))
+    ops.append(("hattr", rng.choice(ODD_KEYS), [x for x in labels if len(x) < 100]))
+    xl = ["zz-extra-%d" % i for i in range(3)]
+    case = {"T": T, "weighted": weighted, "wreg": wreg if weighted else None, "labels": labels, "xlabels": xl,
+            "layers": list(layers), "ops": ops, "reload": True, "stringy": True}
+    case["post_a"] = [("edge", ekeys[3], gen_weight(rng, wreg) if weighted else None, {labels[0]: labels[1]}),
+                      ("node", labels[2], {labels[3]: [labels[4]]}), ("node", xl[0], {"a": ODD_SURR[0]})]
+    case["post_b"] = [("rmnode", labels[5], False), ("rmedge", ekeys[0]), ("nattr", labels[6], ODD_KEYS[1], labels[7])]
+    case["fmt2"] = {"json": rng.choice(["json", "hgx"]), "hgx": rng.choice(["json", "hgx"])}
+    return case
+
+
 def recipe_plan(rng, tier):
     """the sized objects of one run.  Every run (the first N_MUST entries): each of the four types with more than 10000
     records (thorough: also one beyond 5000 and one beyond 65536 each), one more object beyond 5000 records, and the
@@ -663,7 +821,7 @@ def tup(x):
 # a container type per node set.  Everything derives from crc32 of the step, so replays repeat it.
 
 def crc(*parts):
-    return zlib.crc32("|".join(map(str, parts)).encode())
+    return zlib.crc32("|".join(map(str, parts)).encode("utf-8", "surrogatepass"))
 
 
 def fresh(v):
@@ -1383,6 +1541,22 @@ def scan_pieces(text):
     return "".join(out)
 
 
+FILE_STEMS = ["c", "c", "c", "d.v2", "\u00e7\u00e9 \u6587", "sp ace", "caf\udce9", "\U0001f600", "sub.dir \u00e9/c", "sub.dir \u00e9/.hid.den"]
+
+
+def file_path(tmp, case, stage, fmt):
+    """where an object is saved: a handful of names (so files of earlier cases are overwritten), among them names with
+    several dots, blanks, non-ASCII / astral / undecodable characters and a directory whose name holds a dot"""
+    stem = FILE_STEMS[crc(case.get("T"), len(case.get("ops", ())), repr(case.get("labels", ""))[:80]) % len(FILE_STEMS)]
+    path = os.path.join(tmp, f"{stem}{1 if stage == 'first' else 2}.{fmt}")
+    try:
+        os.makedirs(os.path.dirname(path), exist_ok=True)
+        os.fsencode(path)
+    except Exception:  # noqa: BLE001 - a file system that refuses the name
+        path = os.path.join(tmp, f"c{1 if stage == 'first' else 2}.{fmt}")
+    return path
+
+
 class Loaded:
     """result of one save -> load: g the loaded object (None: stop), mok whether the driver now holds the model's
     loaded content, d1 the digest of g, path the file, sel / base the sampled projection in force (big objects)"""
@@ -1401,7 +1575,7 @@ def save_load(ctx, drv, case, enc, h, T, fmt, tmp, stage, rep=None, must=None):
     full (`frame`), and the model's save / load run on a sampled projection (select / project)."""
     from hypergraphx.readwrite import load_hypergraph, save_hypergraph
     vc = {**(rep if rep is not None else case), "format": fmt, "stage": stage}
-    path = os.path.join(tmp, f"c{1 if stage == 'first' else 2}.{fmt}")
+    path = file_path(tmp, case, stage, fmt)
     out = Loaded(path)
     # a file of an earlier case usually exists at this path: saving overwrites it
     r = guarded(digest, h, T)
@@ -1492,8 +1666,12 @@ def save_load(ctx, drv, case, enc, h, T, fmt, tmp, stage, rep=None, must=None):
     if fmt == "json":
         # the file itself: record stream and framing (correspondence with the model; the property does not fix the bytes)
         try:
-            with open(path) as f:
-                text = f.read()
+            with open(path, "rb") as f:
+                raw = f.read()
+            if drv is not None and case.get("stringy") and stage == "first":
+                check_file_strings(ctx, drv, vc, raw, d0)
+            # (the bytes are read as what the platform's reader makes of them: UTF-8 here; lone surrogates pass)
+            text = raw.decode("utf-8", "surrogatepass")
             data = json.loads(text)
         except Exception as e:  # noqa: BLE001
             ctx.violation(vc, f"{stage}: the saved file is not JSON although load_hypergraph read it: {e}")
@@ -1553,7 +1731,7 @@ def save_load(ctx, drv, case, enc, h, T, fmt, tmp, stage, rep=None, must=None):
 def file_shape(path, size):
     """for the report of a file that does not load: where the text stops being the array of records"""
     try:
-        with open(path) as f:
+        with open(path, encoding="utf-8", errors="surrogatepass") as f:
             text = f.read()
         letters = scan_pieces(text)
         want = "o" + "is" * (size - 1) + "ic"
@@ -1824,6 +2002,12 @@ def check_api_prefix(ctx, drv, case, enc):
 # ------------------------------------------------------------------------------------------
 # .hgr
 
+# comment / blank lines whose STRING CONTENT is odd: non-ASCII, astral, separators that str.splitlines() (but not the file
+# iterator) treats as line ends followed by what would be a hyperedge line, NUL, white space that str.strip() removes
+HGR_ODD = ["% caf\u00e9 \u4e2d\u6587 \U0001f600", "% a\u2028 1 2", "% x\x0c1 2", "% y\x1c 3", "%\x85 1", "% \u20291 2 3", "\x0c", "\x1c", "\u2003",
+           "\u00a0 ", "% \x00", "% " + "c" * 9000, "%\ufeff", "  %% 100% 1 2", "\x0b\x0c % 7", "% 1\x1e2", "%\t1 2"]
+
+
 def gen_hgr(rng):
     weighted = rng.random() < 0.5
     n = rng.randint(1, 9)
@@ -1844,7 +2028,7 @@ def gen_hgr(rng):
 
     def noise():
         while rng.random() < 0.3:
-            out.append(rng.choice(["% comment", "", "   ", "%", "  % indented comment 1 2", "\t"]))
+            out.append(rng.choice(["% comment", "", "   ", "%", "  % indented comment 1 2", "\t"]) if rng.random() < 0.7 else rng.choice(HGR_ODD))
     noise()
     out.append(f"{len(edges)} {n}" + ("" if mode is None else f" {mode}"))
     for w, e in edges:
@@ -1857,7 +2041,8 @@ def gen_hgr(rng):
             noise()
             out.append(str(rng.randint(1, 5)))
     noise()
-    return {"text": "\n".join(out) + ("\n" if rng.random() < 0.8 else ""), "weighted": weighted,
+    nl = "\r\n" if rng.random() < 0.08 else "\n"          # (a file written on Windows; universal newlines)
+    return {"text": nl.join(out) + (nl if rng.random() < 0.8 else ""), "weighted": weighted,
             "edges": [(w, e) for w, e in edges], "n": n}
 
 
@@ -1876,7 +2061,7 @@ def hgr_tokenise(text):
 def check_hgr(ctx, drv, case, tmp):
     from hypergraphx.readwrite import load_hypergraph
     path = os.path.join(tmp, "f.hgr")
-    with open(path, "w") as f:
+    with open(path, "w", encoding="utf-8", newline="") as f:
         f.write(case["text"])
     r = guarded(load_hypergraph, path, secs=60 if "sized" in case else 10)
     nontriv = len(case["edges"]) >= 2 and any(ln.strip() == "" or ln.strip().startswith("%") for ln in case["text"].split("\n")[:-1])
@@ -1928,7 +2113,7 @@ def check_hgr(ctx, drv, case, tmp):
 def gen_hif(rng):
     nn = rng.randint(1, 7)
     ne = rng.randint(1, 6)
-    style = rng.choice(["str", "int", "uid", "numstr", "odd"])
+    style = rng.choice(["str", "int", "uid", "numstr", "odd", "oddstr", "oddstr"])
     if style == "str":
         npool, epool = ["n%d" % i for i in range(12)], ["e%d" % i for i in range(12)]
     elif style == "int":
@@ -1937,6 +2122,8 @@ def gen_hif(rng):
         npool, epool = list(range(nn)), list(range(ne))
     elif style == "numstr":
         npool, epool = [str(i) for i in range(nn + 1)], [str(i) for i in range(ne + 1)]
+    elif style == "oddstr":         # STRING CONTENT of the names (and, below, of attribute keys / values)
+        npool, epool = ODD_STRS + ["n0", "n1"], ODD_STRS + ["e0", "e1"]
     else:
         npool = ["", " ", "\u00e9", "a\"b", "\U0001f600", "x" * 300, "0", "n\n", "back\\", "None"][:max(nn, 7)] + ["p%d" % i for i in range(3)]
         epool = [2 ** 53 + 1, 2 ** 64, -1, 0, 1, 10 ** 20, -(2 ** 63) - 1, 7, 8, 9]
@@ -1958,7 +2145,7 @@ def gen_hif(rng):
                         **({"attrs": {"role": rng.choice(["a", "b"])}} if rng.random() < 0.3 else {})})
     rng.shuffle(inc)
     node_recs = [{"node": x, **({"weight": rng.choice([1, 2, 3, 4, 5, 1.0, 10 ** 30 + 7, 1 / 3])} if rng.random() < 0.5 else {}),
-                  **({"attrs": {"name": str(x)[:20] * 2, **({rng.choice(UKEYS[8:]): copy.deepcopy(rng.choice(VALS))}
+                  **({"attrs": {"name": (str(x)[:20] + "~") * 2, **({rng.choice(UKEYS[8:]): copy.deepcopy(rng.choice(VALS))}
                                                            if rng.random() < 0.3 else {})}} if rng.random() < 0.5 else {})}
                  for x in nnames if rng.random() < 0.85]
     edge_recs = [{"edge": e, **({"attrs": {"kind": rng.choice(["p", "q"])}} if rng.random() < 0.6 else {})}
@@ -1966,14 +2153,20 @@ def gen_hif(rng):
     rng.shuffle(node_recs)
     rng.shuffle(edge_recs)
     doc = {"incidences": inc, "nodes": node_recs, "edges": edge_recs}
+    if style == "oddstr":
+        for rec in node_recs + edge_recs + inc:
+            if rng.random() < 0.4:
+                rec.setdefault("attrs", {})[rng.choice(ODD_KEYS)] = odd_val(rng)
     r = rng.random()
     if r < 0.4:
         doc["network-type"] = "undirected"
     if r < 0.7:
         doc["type"] = rng.choice(["undirected", "asc"])
     if rng.random() < 0.5:
-        doc["metadata"] = {"name": "doc", "v": [1, 2], **({rng.choice(UKEYS[8:]): copy.deepcopy(rng.choice(VALS))} if rng.random() < 0.5 else {})}
-    return {"doc": doc}
+        doc["metadata"] = {"name": "doc", "v": [1, 2], **({rng.choice(UKEYS[8:]): copy.deepcopy(rng.choice(VALS))} if rng.random() < 0.5 else {}),
+                           **({rng.choice(ODD_KEYS): odd_val(rng)} if style == "oddstr" else {})}
+    # the document's own text: \uXXXX escapes only (ASCII file), or the characters themselves (UTF-8 file) where they have an encoding
+    return {"doc": doc, "raw": rng.random() < 0.4}
 
 
 def check_hif(ctx, drv, case, tmp):
@@ -1982,8 +2175,15 @@ def check_hif(ctx, drv, case, tmp):
     import contextlib
     doc = case["doc"]
     path = os.path.join(tmp, "d.hif.json")
-    with open(path, "w") as f:
-        json.dump(doc, f)
+    r = guarded(json.dumps, doc, ensure_ascii=not case.get("raw"))
+    if r[0] != "ok":
+        raise RuntimeError("document is not JSON: " + r[1])
+    try:
+        data = r[1].encode("utf-8")
+    except UnicodeEncodeError:               # a lone surrogate has no UTF-8 form: escapes
+        data = json.dumps(doc).encode("ascii")
+    with open(path, "wb") as f:
+        f.write(data)
 
     def run():
         with contextlib.redirect_stdout(io.StringIO()):
@@ -2271,7 +2471,217 @@ def hif_plan(rng, tier):
     return plan
 
 
+# ------------------------------------------------------------------------------------------
+# the string-literal layer of the text format: lean/Hgxv/Model/C06Str.lean (encode / decode on code points)
+
+def cps(s):
+    return ",".join(str(ord(c)) for c in s) or "-"
+
+
+def small_batches(drv, lines, limit=20000):
+    """drv.batch writes a chunk of lines before it reads the answers: long lines go in batches of bounded total size"""
+    out, cur, n = [], [], 0
+    for ln in lines:
+        if cur and n + len(ln) > limit:
+            out += drv.batch(cur)
+            cur, n = [], 0
+        cur.append(ln)
+        n += len(ln)
+    if cur:
+        out += drv.batch(cur)
+    return out
+
+
+def units_of(ans):
+    return [] if ans == "-" else [int(x) for x in ans.split(",")]
+
+
+CP_POOL = [0, 8, 9, 10, 12, 13, 31, 32, 34, 47, 92, 117, 126, 127, 128, 0xFF, 0x100, 0x7FF, 0x800, 0x2028, 0xD7FF, 0xD800, 0xDBFF,
+           0xDC00, 0xDFFF, 0xD83D, 0xDE00, 0xE000, 0xFEFF, 0xFFFF, 0x10000, 0x1F600, 0x10FFFF, 65, 97, 48]
+LITERALS = ['"\\u00E9\\u00e9"', '"\\/"', '"/"', '"\\ud83d\\ude00"', '"\\uD83D\\uDE00"', '"\\ud83d\\u0041"', '"\\ud83d\\n"', '"\\ud83d"',
+            '"\\ude00\\ud83d"', '"\\ud83d\\ud83d\\ude00"', '"\\b\\f\\n\\r\\t\\"\\\\"', '"a\u00e9\U0001f600\u2028\x7f"', '""', '"',
+            '"\\x41"', '"\\u12"', '"\\u12G4"', '"\\ud83d\\u12"', '"a\nb"', '"a\x00b"', '"a\tb"', '"a"x', '"a""', "'a'", 'a"', '"\\"',
+            '"\\u"', '"\\ud83d\\ude0"', '"\\a"', '"\\U0001f600"', '"\\ud83d\\"', '"\\ud83d\\ude00\\ude00"']
+
+
+def check_strings(ctx, drv, rng):
+    """model encode / decode against json.dumps / json.loads: the whole pool, random strings over the boundary code
+    points (also a high surrogate followed by a low one: both sides must MERGE them), hand-written literals (upper-case
+    hex, `\\/`, pairs, malformed ones: both sides must reject)"""
+    strs = list(ODD_STRS) + [x for x in ODD_LONG if len(x) <= ctx.scale(9000, 10 ** 6)]
+    for _ in range(ctx.scale(300, 3000)):
+        strs.append("".join(chr(rng.choice(CP_POOL)) for _ in range(rng.randint(0, 7))))
+    for _ in range(ctx.scale(50, 1000)):
+        strs.append("".join(chr(rng.randrange(0x110000)) for _ in range(rng.randint(1, 5))))
+    ans = small_batches(drv, ["str_enc " + cps(x) for x in strs])
+    for x, a in zip(strs, ans):
+        ctx.count("string_literals_checked")
+        want = [ord(c) for c in json.dumps(x)]
+        back = [ord(c) for c in json.loads(json.dumps(x))]
+        parts = a.split(";")
+        if len(parts) != 2 or units_of(parts[0]) != want:
+            ctx.disagree({"string": x}, f"json.dumps({x[:60]!r}) = {json.dumps(x)[:200]}, model Str.encode = {a[:300]}")
+            break
+        if parts[1] == "rej" or units_of(parts[1]) != back:
+            ctx.disagree({"string": x}, f"json.loads(json.dumps({x[:60]!r})) = {json.loads(json.dumps(x))[:60]!r}, model Str.decode (Str.encode s) = {parts[1][:300]}")
+            break
+    ans = drv.batch(["str_dec " + cps(x) for x in LITERALS])
+    for x, a in zip(LITERALS, ans):
+        ctx.count("string_literals_checked")
+        try:
+            v = json.loads(x)
+            mine = cps(v) if isinstance(v, str) else "rej"
+        except ValueError:
+            mine = "rej"
+        if a != mine:
+            ctx.disagree({"literal": x}, f"json.loads of the text {x!r} gives {mine}, model Str.decode {a}")
+            break
+
+
+def check_file_strings(ctx, drv, vc, raw, d0):
+    """the bytes of a saved text file against the model's string literals: printable ASCII (+ the line feeds of the
+    framing) only (theorem C06_str_ascii), and every string node label stands in its node record as Str.encode writes it"""
+    bad = [b for b in set(raw) if not (32 <= b <= 126 or b == 10)]
+    if bad:
+        ctx.disagree(vc, f"the saved text file holds the bytes {sorted(bad)[:8]} - the model's writer (json.dump with "
+                         f"ensure_ascii) emits printable ASCII only (theorem C06_str_ascii)")
+        return
+    labels = [n for n, _ in d0["nodes"] if isinstance(n, str)]
+    ans = small_batches(drv, ["str_enc " + cps(x) for x in labels])
+    for x, a in zip(labels, ans):
+        lit = bytes(units_of(a.split(";")[0]))
+        if b'"idx":' + lit + b',"metadata"' not in raw:
+            ctx.disagree(vc, f"the node record of the label {x[:60]!r} does not hold the literal the model's Str.encode writes: "
+                             f"{lit[:200]!r}")
+            return
+    ctx.count("files_with_string_literals_compared")
+
+
+# ------------------------------------------------------------------------------------------
+# the same round trips in a process whose locale encoding is NOT UTF-8 (LC_ALL=C, UTF-8 mode off: ASCII), and files
+# that cross between the two processes.  The unchanged code writes pure ASCII text / pickles, so nothing depends on
+# the locale; a writer or reader that relies on the locale encoding shows here with ANY non-ASCII character.
+
+def child_main():
+    """python c06.py --child JOB.pickle OUT.pickle   (runs in the other locale; never prints labels)"""
+    import sys
+    job_path, out_path = sys.argv[2], sys.argv[3]
+    with open(job_path, "rb") as f:
+        job = pickle.load(f)
+    hgxv.use_repo()
+    import locale
+    from hypergraphx.readwrite import load_hypergraph, save_hypergraph
+    res = {"encoding": locale.getpreferredencoding(False), "cases": []}
+    for i, case in enumerate(job["cases"]):
+        T = case["T"]
+        one = {}
+        r = guarded(build, case, secs=60)
+        if r[0] != "ok":
+            one["build"] = r[1]
+            res["cases"].append(one)
+            continue
+        h = r[1][0]
+        r = guarded(digest, h, T)
+        one["d0"] = r
+        for fmt in ("json", "hgx"):
+            path = os.path.join(job["dir"], "child%d.%s" % (i, fmt))
+            r = guarded(save_hypergraph, h, path, binary=(fmt == "hgx"), secs=60)
+            if r[0] != "ok":
+                one[fmt] = ("exc", "save_hypergraph raised " + r[1])
+                continue
+            r = guarded(load_hypergraph, path, secs=60)
+            if r[0] != "ok" or r[1] is None:
+                one[fmt] = ("exc", "load_hypergraph raised / returned None: " + str(r[1]))
+                continue
+            one[fmt] = guarded(digest, r[1], T)
+            # a file the OTHER process wrote
+            path = os.path.join(job["dir"], "parent%d.%s" % (i, fmt))
+            if os.path.exists(path):
+                r = guarded(load_hypergraph, path, secs=60)
+                one["x" + fmt] = guarded(digest, r[1], T) if r[0] == "ok" and r[1] is not None else \
+                    ("exc", "load_hypergraph raised / returned None: " + str(r[1]))
+        res["cases"].append(one)
+    with open(out_path, "wb") as f:
+        pickle.dump(res, f)
+
+
+def check_locale(ctx, cases, tmp):
+    import subprocess
+    import sys
+    from hypergraphx.readwrite import load_hypergraph, save_hypergraph
+    d = os.path.join(tmp, "loc")
+    os.makedirs(d, exist_ok=True)
+    mine = []
+    for i, case in enumerate(cases):
+        T = case["T"]
+        r = guarded(build, case, secs=60)
+        dg = guarded(digest, r[1][0], T) if r[0] == "ok" else r
+        if dg[0] == "ok" and wf_digest(dg[1], T):
+            for fmt in ("json", "hgx"):
+                guarded(save_hypergraph, r[1][0], os.path.join(d, "parent%d.%s" % (i, fmt)), binary=(fmt == "hgx"), secs=60)
+        mine.append(dg)
+    job, outp = os.path.join(d, "job.pickle"), os.path.join(d, "out.pickle")
+    with open(job, "wb") as f:
+        pickle.dump({"dir": d, "cases": cases}, f)
+    env = {k: v for k, v in os.environ.items() if not k.startswith("LC_") and k not in ("LANG", "LANGUAGE", "PYTHONIOENCODING")}
+    env.update({"LC_ALL": "C", "PYTHONUTF8": "0", "PYTHONCOERCECLOCALE": "0", "HGX_REPO": hgxv.REPO,
+                "PYTHONPATH": os.path.dirname(os.path.abspath(__file__))})
+    budget = 60 if ctx.time_left() is None else max(10, min(60, ctx.time_left() - 5))
+    try:
+        pr = subprocess.run([sys.executable, "-X", "utf8=0", os.path.abspath(__file__), "--child", job, outp], env=env, timeout=budget,
+                            stdout=subprocess.PIPE, stderr=subprocess.PIPE)
+        err = pr.stderr.decode("ascii", "replace")[-400:] if pr.returncode else None
+    except subprocess.TimeoutExpired:
+        err = "timeout"
+    vc0 = {"locale": "C", "cases": cases}
+    if err == "timeout":
+        ctx.count("locale_child_out_of_time")        # (a loaded machine: no verdict; hangs are seen by the in-process stream)
+        return
+    if err is not None or not os.path.exists(outp):
+        ctx.violation(vc0, f"save / load of {len(cases)} objects in a process with LC_ALL=C (locale encoding ASCII) did not finish: {err}")
+        return
+    with open(outp, "rb") as f:
+        res = pickle.load(f)
+    if res["encoding"].lower().replace("-", "").replace("_", "") in ("utf8",):
+        ctx.count("locale_child_is_utf8_after_all")
+    for i, (case, m, one) in enumerate(zip(cases, mine, res["cases"])):
+        T = case["T"]
+        vc = {"locale": "C", "cases": [case]}
+        ctx.case(("locale", json.dumps(hgxv.jsonable(case), sort_keys=True, default=repr)), True, sample=None)
+        ctx.count("locale_cases")
+        if m[0] != "ok" or not wf_digest(m[1], T):
+            continue
+        d0 = m[1]
+        c0 = one.get("d0")
+        if c0 is None or c0[0] != "ok" or not jeq(c0[1], d0):
+            ctx.violation(vc, f"the same history builds another {TNAME[T]} in a process with LC_ALL=C: {one.get('build') or (c0[1] if c0[0] != 'ok' else compare_digests(d0, c0[1], 'built')[:1])}"[:700])
+            continue
+        for fmt in ("json", "hgx"):
+            for tag, what in ((fmt, f"LC_ALL=C (locale encoding {res['encoding']}): .{fmt} round trip"),
+                              ("x" + fmt, f".{fmt} file saved under UTF-8, loaded under LC_ALL=C")):
+                r = one.get(tag)
+                if r is None:
+                    continue
+                if r[0] != "ok":
+                    ctx.violation(vc, f"{what}: {r[1]}"[:700])
+                    continue
+                for x in compare_digests(d0, r[1], what)[:1]:
+                    ctx.violation(vc, x)
+            path = os.path.join(d, "child%d.%s" % (i, fmt))
+            if os.path.exists(path) and one.get(fmt, ("exc",))[0] == "ok":
+                r = guarded(load_hypergraph, path, secs=60)
+                r = guarded(digest, r[1], T) if r[0] == "ok" and r[1] is not None else ("exc", "load_hypergraph raised / returned None: " + str(r[1]))
+                what = f".{fmt} file saved under LC_ALL=C, loaded under UTF-8"
+                if r[0] != "ok":
+                    ctx.violation(vc, f"{what}: {r[1]}"[:700])
+                else:
+                    for x in compare_digests(d0, r[1], what)[:1]:
+                        ctx.violation(vc, x)
+                ctx.count("locale_cross_loads")
+
+
 def run(ctx):
+    plain_reports(ctx)
     drv = ctx.driver() if ctx.model_available and not os.environ.get("C06_NODRV") else None
     tmp = tempfile.mkdtemp(prefix="hgxv_c06_")
     try:
@@ -2290,7 +2700,35 @@ def run(ctx):
         # the four types first, once each, deterministic start; then the big objects every run has
         for T in TYPES:
             check_object(ctx, drv, gen_case(ctx.rng, T), tmp)
-        todo = [("sized", c) for c in sized[:n_must]] + todo
+        # STRING CONTENT: the census of every type (one of them with the long strings), a few random objects of odd
+        # strings in this process and a dozen in a process whose locale encoding is ASCII
+        import time
+        t_str = time.time()
+        long_one = ctx.rng.randrange(4)
+        for i, T in enumerate(TYPES):
+            check_object(ctx, drv, {"recipe": {"T": T, "dim": "strings", "size": int(i == long_one), "weighted": ctx.rng.random() < 0.5,
+                                               "wreg": ctx.rng.choice(["q", "q", "flt"]), "seed": ctx.rng.getrandbits(32)}}, tmp)
+        for T in TYPES:
+            check_object(ctx, drv, gen_case(ctx.rng, T, stringy=True), tmp)
+        if drv is not None:
+            check_strings(ctx, drv, ctx.rng)
+        loc = [gen_case(ctx.rng, T, stringy=True) for T in TYPES for _ in range(ctx.scale(2, 10))] + \
+              [gen_case(ctx.rng, T, stringy=False) for T in TYPES]
+        loc.append(expand({"T": ctx.rng.choice(TYPES), "dim": "strings", "size": 0, "weighted": True, "wreg": "q", "seed": ctx.rng.getrandbits(32)}))
+        t_loc = time.time()
+        check_locale(ctx, loc, tmp)
+        ctx.extra["seconds_locale_child"] = round(time.time() - t_loc, 1)
+        ctx.extra["seconds_strings_start"] = round(t_loc - t_str, 1)
+        # a first slice of every kind BEFORE the big objects every run has (they take a third of the budget; on a loaded
+        # machine nearly all of it): the .hgr / HIF readers and small objects are always reached
+        first_slice = []
+        for kind in ("hgr", "hif", "obj"):
+            idx = [i for i, (k, c) in enumerate(todo) if k == kind and c is None][:ctx.scale(60, 200)]
+            first_slice += [todo[i] for i in idx]
+            for i in reversed(idx):
+                del todo[i]
+        # (the must-have objects by size: the record counts around 4096 / 8192 and 5000+ before the four beyond 10000)
+        todo = first_slice + [("sized", c) for c in sorted(sized[:n_must], key=lambda c: c["recipe"]["size"])] + todo
 
         def stop():
             # a broken correspondence alone does not stop the search for a failing input
@@ -2317,10 +2755,16 @@ def run(ctx):
 
 
 def replay(ctx, case):
+    plain_reports(ctx)
     drv = ctx.driver() if ctx.model_available and not os.environ.get("C06_NODRV") else None
     tmp = tempfile.mkdtemp(prefix="hgxv_c06_")
     try:
-        if "doc" in case:
+        if case.get("locale"):
+            for c in case["cases"]:
+                if "ops" in c:
+                    c["ops"] = [tuple(op) for op in c["ops"]]
+            check_locale(ctx, case["cases"], tmp)
+        elif "doc" in case:
             check_hif(ctx, drv, case, tmp)
         elif "text" in case:
             case["edges"] = [(w, list(e)) for w, e in case["edges"]]
@@ -2334,3 +2778,9 @@ def replay(ctx, case):
             check_object(ctx, drv, case, tmp)
     finally:
         shutil.rmtree(tmp, ignore_errors=True)
+
+
+if __name__ == "__main__":
+    import sys as _sys
+    if len(_sys.argv) == 4 and _sys.argv[1] == "--child":
+        child_main()
